@@ -2,7 +2,7 @@
    handle-multiset specification, produces the specification's output and a state that refines the
    specification's next state (forward simulation, operation by operation). *)
 From MptV Require Import Base.Mem C15.RefcountModel C15.RefcountSpec C15.RefcountCounter C15.RefcountInv
-  C15.RefcountSteps C15.RefcountOps C15.RefcountRun C15.RefcountRel C15.RefcountFrame.
+  C15.RefcountSteps C15.RefcountFr C15.RefcountOps C15.RefcountRun C15.RefcountRel C15.RefcountFrame.
 Local Open Scope nat_scope.
 
 Ltac inv_ok H := first [injection H as <- <- | injection H as <-].
@@ -164,6 +164,9 @@ Proof.
 Qed.
 
 (* ---------- array clone / clear ---------- *)
+Lemma tmismatch_ref s ss a b : Sk s ss -> tmismatch (skind_at ss) a b = tmismatch (kind_at s) a b.
+Proof. intros K. unfold tmismatch. destruct a, b; try reflexivity. rewrite !(kind_at_ref s ss _ K). reflexivity. Qed.
+
 Lemma sim_arrclone s ss si d : Refines s ss -> d < NSLOT ->
   exists s' t, p_arrclone s si d = Ok (s', t) /\ Refines s' (fst (sexec ss (OArrClone si d))) /\
     t = snd (sexec ss (OArrClone si d)).
@@ -172,6 +175,8 @@ Proof.
   destruct (p_arrclone_ok s si d G Hd) as (s' & t & E & G' & _). exists s', t. split; [exact E|].
   unfold p_arrclone in E. cbn [sexec]. rewrite !(sslot_ref s ss RF).
   destruct (eq_opt (slot s si) (slot s d)) eqn:Q.
+  { inv_ok E. cbn [fst snd]. split; [exact RF|reflexivity]. }
+  rewrite (tmismatch_ref s ss _ _ (proj2 (proj2 RF))). destruct (tmismatch (kind_at s) (slot s si) (slot s d)).
   { inv_ok E. cbn [fst snd]. split; [exact RF|reflexivity]. }
   destruct (retain s (slot s si)) as [[s1 ok]| |] eqn:R; cbn [bind] in E; try discriminate.
   destruct (retain_fr _ _ _ _ R) as [F1 H1].
@@ -354,6 +359,8 @@ Proof.
   destruct (Sk_l s ss o x K Ex) as (y & Ey & Ky & Xy & Sy & Iy). rewrite Ey, (Iy D).
   unfold p_setinner in E. rewrite (live_ok s o x Ex D) in E. cbn [bind] in E.
   destruct (eq_opt (slot s a) (oinner x)).
+  { inv_ok E. split; [exact RF|reflexivity]. }
+  rewrite (tmismatch_ref s ss _ _ K). destruct (tmismatch (kind_at s) (slot s a) (oinner x)).
   { inv_ok E. split; [exact RF|reflexivity]. }
   destruct (retain s (slot s a)) as [[s1 ok]| |] eqn:R; cbn [bind] in E; try discriminate.
   destruct (retain_fr _ _ _ _ R) as [F1 H1].
@@ -625,6 +632,148 @@ Proof.
   eapply Sk_new; [exact K|reflexivity].
 Qed.
 
+(* ---------- the stage array of a rawdata object: modify / advance / sharing it out ---------- *)
+Lemma put_inner_objs s o v s' : put_inner s o v = Ok s' ->
+  exists x, live s o = Ok x /\ objs s' = set_nth o (with_inner x v) (objs s) /\ hs s' = hs s.
+Proof.
+  unfold put_inner. destruct (live s o) as [x| |]; cbn [bind]; try discriminate.
+  intros X. inv_ok X. exists x. auto.
+Qed.
+
+Lemma is_buf_counted k : is_buf k = true -> cls_of k = Counted.
+Proof. destruct k; try discriminate; reflexivity. Qed.
+
+Lemma sset_inner_at ss o y v : nth_error (sobjs ss) o = Some y ->
+  sset_inner ss o v = mksst (set_nth o (mksobj (skind y) (sext y) v) (sobjs ss)) (shs ss).
+Proof. intros E. unfold sset_inner. rewrite E. reflexivity. Qed.
+
+(* the object gets a fresh stage buffer (it owned none) *)
+Lemma sim_newinner s ss o x y s2 : Refines s ss -> Good s2 ->
+  nth_error (objs s) o = Some x -> odead x = false -> oinner x = None ->
+  nth_error (sobjs ss) o = Some y -> orel x y ->
+  (let '(s1, n) := m_new s KStage None in put_inner s1 o (Some n)) = Ok s2 ->
+  Refines s2 (fst (let '(s1, id) := snew ss KStage None in (sset_inner s1 o (Some id), OD))).
+Proof.
+  intros RF G2 E D Hi Ey (Ky & Xy & Sy & Iy) X. pose proof RF as (_ & HS & K).
+  unfold m_new in X. cbn beta iota zeta in X.
+  set (s1 := mkst (objs s ++ [mkobj KStage match cls_of KStage with Counted => 1%N | _ => 0%N end 0%N false None]) (hs s)
+                  (length (objs s) :: rm_opt None (pend s)) (elog s)) in *.
+  destruct (put_inner_objs _ _ _ _ X) as (x1 & L1 & O2 & H2).
+  destruct (live_inv _ _ _ L1) as [E1 D1]. unfold s1 in E1. cbn [objs] in E1.
+  rewrite nth_error_app1 in E1 by (apply nth_error_Some; congruence). rewrite E in E1. injection E1 as <-.
+  unfold snew. cbn [fst].
+  rewrite (sset_inner_at _ o y) by (cbn [sobjs]; rewrite nth_error_app1; [assumption|apply nth_error_Some; congruence]).
+  cbn [sobjs shs]. split; [assumption|]. split; [cbn [shs]; rewrite H2; unfold s1; cbn [hs]; exact HS|].
+  eapply (Sk_upd s1 s2 (mksst (sobjs ss ++ [mksobj KStage 0%N None]) (shs ss))); [eapply Sk_new; [exact K|reflexivity]| |exact O2|].
+  - unfold s1. cbn [objs]. rewrite app_length. assert (o < length (objs s)) by (apply nth_error_Some; congruence). lia.
+  - unfold orel. cbn [skind sext sinner with_inner okind oext odead oinner]. rewrite (Sk_len s ss K). auto.
+Qed.
+
+Lemma sim_advance s ss m o : Refines s ss -> slot s m = Some o -> kind_is (kind_at s) (slot s m) is_raw = true ->
+  exists s' t, p_advance s o = Ok (s', t) /\ Refines s' (fst (sexec ss (ORawAdvance m))) /\ t = snd (sexec ss (ORawAdvance m)).
+Proof.
+  intros RF S Hk. pose proof (Refines_good _ _ RF) as G. pose proof RF as ((I & P) & HS & K).
+  destruct (p_advance_ok s m o G S Hk) as (s' & t & E & G' & _). exists s', t. split; [exact E|].
+  cbn [sexec]. rewrite (sslot_ref s ss RF), S.
+  destruct (inv_live s o I (H3_slot s m o S)) as (x & Ex & D).
+  destruct (Sk_l s ss o x K Ex) as (y & Ey & Oy). pose proof Oy as (Ky & Xy & Sy & Iy). rewrite Ey, (Iy D).
+  unfold p_advance in E. rewrite (live_ok s o x Ex D) in E. cbn [bind] in E.
+  destruct (oinner x) as [b|] eqn:Hi.
+  - inv_ok E. split; [exact RF|reflexivity].
+  - destruct (let '(s1, n) := m_new s KStage None in put_inner s1 o (Some n)) as [s2| |] eqn:X.
+    2,3: (destruct (m_new s KStage None) as [s1 n]; rewrite X in E; discriminate).
+    assert (s' = s2 /\ t = OD) as [-> ->].
+    { destruct (m_new s KStage None) as [s1 n]. rewrite X in E. cbn [bind] in E. inv_ok E. auto. }
+    split; [|unfold snew; reflexivity].
+    apply (sim_newinner s ss o x y s2 RF G' Ex D Hi Ey Oy X).
+Qed.
+
+Lemma sim_modify s ss m o : Refines s ss -> slot s m = Some o -> kind_is (kind_at s) (slot s m) is_raw = true ->
+  exists s' t, p_modify s o = Ok (s', t) /\ Refines s' (fst (sexec ss (ORawModify m))) /\ t = snd (sexec ss (ORawModify m)).
+Proof.
+  intros RF S Hk. pose proof (Refines_good _ _ RF) as G. pose proof RF as ((I & P) & HS & K).
+  destruct (p_modify_ok s m o G S Hk) as (s' & t & E & G' & _). exists s', t. split; [exact E|].
+  cbn [sexec]. rewrite (sslot_ref s ss RF), S.
+  destruct (inv_live s o I (H3_slot s m o S)) as (x & Ex & D).
+  destruct (Sk_l s ss o x K Ex) as (y & Ey & Oy). pose proof Oy as (Ky & Xy & Sy & Iy). rewrite Ey, (Iy D).
+  unfold p_modify in E. rewrite (live_ok s o x Ex D) in E. cbn [bind] in E.
+  destruct (oinner x) as [b|] eqn:Hi.
+  2:{ destruct (let '(s1, n) := m_new s KStage None in put_inner s1 o (Some n)) as [s2| |] eqn:X.
+      2,3: (destruct (m_new s KStage None) as [s1 n]; rewrite X in E; discriminate).
+      assert (s' = s2 /\ t = OD) as [-> ->].
+      { destruct (m_new s KStage None) as [s1 n]. rewrite X in E. cbn [bind] in E. inv_ok E. auto. }
+      split; [|unfold snew; reflexivity].
+      apply (sim_newinner s ss o x y s2 RF G' Ex D Hi Ey Oy X). }
+  destruct (inv_live s b I (H3_inner s o x b Ex Hi)) as (yb & Eb & Db).
+  pose proof (inv_obj s I o x Ex) as (_ & C2 & _). destruct (C2 b Hi) as (yb' & Eb' & Bb). rewrite Eb in Eb'. injection Eb' as <-.
+  destruct (stotal_cnt s ss RF b yb Eb Db (is_buf_counted _ Bb)) as (-> & _).
+  rewrite (live_ok s b yb Eb Db) in E. cbn [bind] in E.
+  destruct (ocnt yb <? 2)%N.
+  { inv_ok E. split; [exact RF|reflexivity]. }
+  unfold m_new in E. cbn beta iota zeta in E.
+  set (s1 := mkst (objs s ++ [mkobj KStage match cls_of KStage with Counted => 1%N | _ => 0%N end 0%N false None]) (hs s)
+                  (length (objs s) :: rm_opt None (pend s)) (elog s)) in *.
+  assert (E1 : nth_error (objs s1) o = Some x).
+  { unfold s1. cbn [objs]. rewrite nth_error_app1; [assumption|]. apply nth_error_Some. congruence. }
+  rewrite (live_ok s1 o x E1 D) in E. cbn [bind] in E.
+  destruct (m_unref (take_inner s1 o x) b) as [s3| |] eqn:U; cbn [bind] in E; try discriminate.
+  destruct (put_inner s3 o (Some (length (objs s)))) as [s4| |] eqn:PI; cbn [bind] in E; try discriminate.
+  inv_ok E. destruct (m_unref_fr _ _ _ U) as [F3 H3'].
+  destruct (put_inner_objs _ _ _ _ PI) as (x3 & L3 & O4 & H4).
+  destruct (live_inv _ _ _ L3) as [E3 D3].
+  destruct F3 as [L3' F3]. destruct (F3 o (with_inner x None)) as (x3' & E3' & Kx3 & Xx3 & _).
+  { unfold take_inner. cbn [objs]. rewrite nth_error_set_nth, Nat.eqb_refl, E1. reflexivity. }
+  rewrite E3 in E3'. injection E3' as <-. cbn [with_inner okind oext] in Kx3, Xx3.
+  unfold snew. cbn [fst snd]. split; [|reflexivity].
+  assert (Ey1 : nth_error (sobjs ss ++ [mksobj KStage 0%N None]) o = Some y).
+  { rewrite nth_error_app1; [assumption|]. apply nth_error_Some. congruence. }
+  rewrite (sset_inner_at _ o y) by exact Ey1. cbn [sobjs shs].
+  split; [assumption|]. split; [cbn [shs]; rewrite H4, H3'; exact HS|].
+  (* through the state in which the object momentarily owns nothing *)
+  pose (ssm := mksst (set_nth o (mksobj (skind y) (sext y) None) (sobjs ss ++ [mksobj KStage 0%N None])) (shs ss)).
+  assert (K2 : Sk (take_inner s1 o x) ssm).
+  { eapply (Sk_upd s1 _ (mksst (sobjs ss ++ [mksobj KStage 0%N None]) (shs ss))); [eapply Sk_new; [exact K|reflexivity]| |reflexivity|].
+    - apply nth_error_Some. congruence.
+    - unfold orel. cbn [skind sext sinner with_inner okind oext odead oinner]. auto. }
+  assert (K3 : Sk s3 ssm) by (apply (Sk_fr _ _ _ K2); split; assumption).
+  replace (set_nth o (mksobj (skind y) (sext y) (Some (length (sobjs ss)))) (sobjs ss ++ [mksobj KStage 0%N None]))
+    with (set_nth o (mksobj (skind y) (sext y) (Some (length (sobjs ss)))) (sobjs ssm)) by (unfold ssm; cbn [sobjs]; apply set_nth_twice).
+  eapply (Sk_upd s3); [exact K3|apply nth_error_Some; congruence|exact O4|].
+  unfold orel. cbn [skind sext sinner with_inner okind oext odead oinner]. rewrite Kx3, Xx3, (Sk_len s ss K). auto.
+Qed.
+
+Lemma sim_rawget s ss m o a : Refines s ss -> slot s m = Some o -> a < NSLOT ->
+  exists s' t, p_rawget s o a = Ok (s', t) /\ Refines s' (fst (sexec ss (ORawGet m a))) /\ t = snd (sexec ss (ORawGet m a)).
+Proof.
+  intros RF S Ha. pose proof (Refines_good _ _ RF) as G. pose proof RF as ((I & P) & HS & K).
+  destruct (p_rawget_ok s m o a G S Ha) as (s' & t & E & G' & _). exists s', t. split; [exact E|].
+  cbn [sexec]. rewrite !(sslot_ref s ss RF), S.
+  destruct (inv_live s o I (H3_slot s m o S)) as (x & Ex & D).
+  destruct (Sk_l s ss o x K Ex) as (y & Ey & Ky & Xy & Sy & Iy). rewrite Ey, (Iy D).
+  unfold p_rawget in E. rewrite (live_ok s o x Ex D) in E. cbn [bind] in E.
+  destruct (eq_opt (oinner x) (slot s a)) eqn:Q.
+  { inv_ok E. cbn [fst snd]. split; [exact RF|reflexivity]. }
+  rewrite (tmismatch_ref s ss _ _ K). destruct (tmismatch (kind_at s) (oinner x) (slot s a)).
+  { inv_ok E. cbn [fst snd]. split; [exact RF|reflexivity]. }
+  destruct (retain s (oinner x)) as [[s1 ok]| |] eqn:R; cbn [bind] in E; try discriminate.
+  destruct (retain_fr _ _ _ _ R) as [F1 H1].
+  pose proof (retain_res s ss _ _ _ RF (fun b Hb => H3_inner s o x b Ex Hb) R) as Q1.
+  rewrite <- Q1. destruct ok; cbn [negb fst snd] in *.
+  2:{ inv_ok E. split; [|reflexivity]. apply (Refines_same s _ ss RF G' F1 H1). }
+  unfold m_take in E. cbn beta iota zeta in E. rewrite (slot_hs s s1 a H1) in E.
+  assert (HH : forall s4, fr (m_put (mkst (objs s1) (set_nth a None (hs s1)) (o2l (slot s a) ++ pend s1) (elog s1)) a (oinner x)) s4 ->
+           hs s4 = hs (m_put (mkst (objs s1) (set_nth a None (hs s1)) (o2l (slot s a) ++ pend s1) (elog s1)) a (oinner x)) ->
+           Good s4 -> Refines s4 (sput ss a (oinner x))).
+  { intros s4 F4 H4 G4. apply (Refines_sput s s4 ss a _ RF G4).
+    - apply (fr_trans _ _ _ F1). exact F4.
+    - rewrite H4. cbn [m_put hs]. rewrite H1. apply set_nth_twice. }
+  destruct (slot s a) as [c|] eqn:Sa.
+  - destruct (m_unref _ c) as [s4| |] eqn:U; cbn [bind] in E; try discriminate. inv_ok E.
+    destruct (m_unref_fr _ _ _ U) as [F4 H4]. split; [apply HH; assumption|].
+    destruct (oinner x); reflexivity.
+  - inv_ok E. split; [apply HH; [apply fr_refl|reflexivity|assumption]|]. destruct (oinner x); reflexivity.
+Qed.
+
 (* ---------- every operation ---------- *)
 Lemma sim_exec s ss o : Refines s ss -> guard (hs s) (kind_at s) (held s) o = true ->
   exists s', exec s o = Ok (s', snd (sexec ss o)) /\ Refines s' (fst (sexec ss o)).
@@ -688,7 +837,7 @@ Proof.
     exists s'. split; [exact E|]. cbn [sexec]. rewrite (sslot_ref s ss RF), S. exact RF'.
   - (* OSetInner *)
     destruct (kind_is_spec s _ _ Hg1) as (o & x & S & _). rewrite S.
-    destruct (sim_setinner s ss m o a RF S Hg1 Hg0) as (s' & t & E & RF' & ->). exists s'. split; [exact E|exact RF'].
+    destruct (sim_setinner s ss m o a RF S Hg1 (kind_is_stage_buf _ _ Hg0)) as (s' & t & E & RF' & ->). exists s'. split; [exact E|exact RF'].
   - (* ODefer *)
     destruct (kind_is_spec s _ _ Hg1) as (o & x & S & _). rewrite S.
     destruct (sim_addref s ss o d s0 RF S (is_none_true _ Hg0) (eqb_bound _ _ Hg2 ltac:(lia))) as (s' & r & E & RF' & Q1 & _).
@@ -724,6 +873,18 @@ Proof.
     destruct (kind_is_spec s _ _ Hg1) as (o & x & S & _). rewrite S.
     destruct (sim_xclone s ss o d s0 RF S (is_none_true _ Hg0) (eqb_bound _ _ Hg2 ltac:(lia))) as (s' & E & RF' & T).
     exists s'. rewrite T. split; [exact E|exact RF'].
+  - (* ORawModify *)
+    destruct (kind_is_spec s _ _ Hg0) as (o & x & S & _). rewrite S.
+    destruct (sim_modify s ss m o RF S Hg0) as (s' & t & E & RF' & ->). exists s'. split; [exact E|exact RF'].
+  - (* ORawAdvance *)
+    destruct (kind_is_spec s _ _ Hg0) as (o & x & S & _). rewrite S.
+    destruct (sim_advance s ss m o RF S Hg0) as (s' & t & E & RF' & ->). exists s'. split; [exact E|exact RF'].
+  - (* ORawGet *)
+    destruct (kind_is_spec s _ _ Hg0) as (o & x & S & _). rewrite S.
+    destruct (sim_rawget s ss m o a RF S (eqb_bound _ _ Hg1 ltac:(lia))) as (s' & t & E & RF' & ->).
+    exists s'. split; [exact E|exact RF'].
+  - (* ORawCall *)
+    exists s. split; [reflexivity|exact RF].
 Qed.
 
 Lemma Refines_clear s ss : Refines s ss -> Refines (clear_log s) ss.
